@@ -370,8 +370,10 @@ func threadEnd(t *thread) {
 	s.cur = next
 	g := t.g
 	t.g = nil
-	next.g.signal()
+	// the gate goes back to the pool before the token is handed on: after the signal this goroutine runs
+	// concurrently with the next thread and must not touch scheduler state any more
 	g.free()
+	next.g.signal()
 }
 
 func stackString() string {
